@@ -24,30 +24,13 @@ func TestMain(m *testing.M) {
 	pbt.Main(m, "C07")
 }
 
-// Findings on the unchanged tree that wait for a decision (props/c07/FINDINGS.md): the generators
-// and oracles steer around their signature and count it, exactly as for a listed known finding.
-var pending = map[string]bool{keyInternalRmGaps: true, keyPiGapCells: true}
+// Two findings of this check on the tree at 89dae8c have been repaired in /repo (3a3c37f: base
+// frequencies normalised over the nucleotide cells; afd6281: the internal-gap counting mode honours
+// --rm-gaps), see props/c07/NOTES-findings.md. Nothing is steered around any more: frequencies sum to 1,
+// "finite corrected distance >= observed proportion" is asserted everywhere, and --gap-mut 1 with
+// --rm-gaps is judged like the two other modes. regress/c07/c07-finding-*.json keep both inputs.
 
-func steerAround(key string) bool { return pbt.Known(key) || pending[key] }
-
-const keyInternalRmGaps = "internal-gap-mode-ignores-rm-gaps"
-const keyPiGapCells = "pi-over-gap-cells"
-
-func judgeOpt(tol refdist.Tol) refdist.JudgeOpt {
-	return refdist.JudgeOpt{Tol: tol, ExemptBelowP: steerAround(keyPiGapCells)}
-}
-
-// keepAllReadings: which readings of "--rm-gaps with --gap-mut 1" are accepted
-func keepAllReadings(o *pbt.Outcome, rows []string, opt refdist.Options) []bool {
-	if !steerAround(keyInternalRmGaps) {
-		return []bool{false}
-	}
-	hasGap, hasAmb := refdist.Describe(rows)
-	if opt.RmGaps && (opt.Model == refdist.Raw || opt.Model == refdist.PDist) && opt.GapMut == refdist.GapInternal && (hasGap || hasAmb) {
-		o.Exclude(keyInternalRmGaps)
-	}
-	return []bool{false, true}
-}
+func judgeOpt(tol refdist.Tol) refdist.JudgeOpt { return refdist.JudgeOpt{Tol: tol} }
 
 // ---- library tier: DistMatrix against the closed forms -------------------------------------------
 
@@ -57,6 +40,11 @@ type estCase struct {
 	Tier    int             `json:"tier"`
 	ViaName bool            `json:"via_name"` // dna.Model(name, rmgaps) instead of the constructor
 	Threads int             `json:"threads"`
+	// Prev: the same model object first computes the matrix of this other alignment (what the
+	// multi-alignment input of compute distance and cmd/distboot.go do), with PrevOpt's gamma, alpha
+	// and weights; nil = fresh model
+	Prev    []string         `json:"prev"`
+	PrevOpt *refdist.Options `json:"prev_opt"`
 }
 
 func genEst(t *rapid.T) estCase {
@@ -65,6 +53,15 @@ func genEst(t *rapid.T) estCase {
 	c.Opt = refdist.GenOptions(t, len(c.Rows), len(c.Rows[0]), true, true)
 	c.ViaName = rapid.Bool().Draw(t, "via-name")
 	c.Threads = rapid.IntRange(1, 3).Draw(t, "threads")
+	if rapid.IntRange(0, 3).Draw(t, "reuse-model") == 0 {
+		c.Prev, _ = refdist.GenRows(t, 2, 6, 30, c.Tier)
+		po := c.Opt
+		po.Ranges = nil
+		po.Gamma = rapid.Bool().Draw(t, "prev-gamma")
+		po.Alpha = refdist.GenAlpha(t)
+		po.Weights = refdist.GenWeights(t, len(c.Prev[0]))
+		c.PrevOpt = &po
+	}
 	return c
 }
 
@@ -128,6 +125,17 @@ func checkEst(c estCase) (o pbt.Outcome, err error) {
 	if e != nil {
 		return o, fmt.Errorf("building the model fails for valid options: %v", e)
 	}
+	if c.Prev != nil {
+		// the model object has a history: its result must not depend on it
+		prev, e := distrun.MatrixWith(gen.MustBuild(distrun.Ali(c.Prev)), *c.PrevOpt, model, c.Threads)
+		if e != nil {
+			return o, fmt.Errorf("DistMatrix fails on the previous alignment: %v", e)
+		}
+		if _, _, e := refdist.JudgeAny(prev, c.Prev, *c.PrevOpt, refdist.Readings(c.Prev, *c.PrevOpt), judgeOpt(refdist.LibTol)); e != nil {
+			return o, fmt.Errorf("previous alignment: %v", e)
+		}
+		o.Class("model-object-reused")
+	}
 	got, e := distrun.MatrixWith(al, c.Opt, model, c.Threads)
 	if e != nil {
 		return o, fmt.Errorf("DistMatrix fails on a nucleotide alignment with valid options: %v", e)
@@ -135,7 +143,7 @@ func checkEst(c estCase) (o pbt.Outcome, err error) {
 	if !gen.SameRows(gen.Snapshot(al), ali.Rows) {
 		return o, fmt.Errorf("DistMatrix modified the alignment: %s", gen.Show(gen.Snapshot(al)))
 	}
-	readings := refdist.Readings(c.Rows, c.Opt, keepAllReadings(&o, c.Rows, c.Opt))
+	readings := refdist.Readings(c.Rows, c.Opt)
 	v, ref, err := refdist.JudgeAny(got, c.Rows, c.Opt, readings, judgeOpt(refdist.LibTol))
 	if err != nil {
 		return o, err
@@ -167,16 +175,13 @@ func checkEst(c estCase) (o pbt.Outcome, err error) {
 					return o, fmt.Errorf("Distance(%d,%d) = %.15g, the estimator gives %.15g", i, j, d, en.Value)
 				}
 			case refdist.Undefined:
-				if !(math.IsNaN(d) || math.IsInf(d, 0) || d < 0 || d > refdist.HugeLimit) && !(en.Diff == 0 && !(en.Total > 0) && d == 0) {
+				if !(math.IsNaN(d) || math.IsInf(d, 0) || d < 0 || d > refdist.HugeLimit) {
 					return o, fmt.Errorf("Distance(%d,%d) = %.15g although the estimator is undefined (%g differences over %g sites, smallest log argument %g)", i, j, d, en.Diff, en.Total, en.MinArg)
 				}
 			}
 		}
 	}
 	o.Ill += v.Ill
-	for k := 0; k < v.BelowP; k++ {
-		o.Exclude(keyPiGapCells)
-	}
 	o.Ambiguous += v.Ambiguous
 	o.NonTrivial = v.NonTrivial > 0
 	classify(&o, c.Opt, c.Tier, ref)
@@ -242,16 +247,13 @@ func checkEnum(c enumCase) (o pbt.Outcome, err error) {
 	if e != nil {
 		return o, fmt.Errorf("DistMatrix fails: %v", e)
 	}
-	readings := refdist.Readings(c.Rows, c.Opt, keepAllReadings(&o, c.Rows, c.Opt))
+	readings := refdist.Readings(c.Rows, c.Opt)
 	v, ref, err := refdist.JudgeAny(got, c.Rows, c.Opt, readings, judgeOpt(refdist.LibTol))
 	if err != nil {
 		return o, err
 	}
 	o.Ill += v.Ill
 	o.Ambiguous += v.Ambiguous
-	for k := 0; k < v.BelowP; k++ {
-		o.Exclude(keyPiGapCells)
-	}
 	if v.NonTrivial > 0 {
 		o.NonTrivial = true
 		o.Key = fmt.Sprintf("%v %+v", c.Rows, c.Opt)
@@ -304,6 +306,9 @@ type cliCase struct {
 	Average bool            `json:"average"`
 	// Bad: "" or the kind of invalid invocation (the command must fail)
 	Bad string `json:"bad"`
+	// Before: with phylip input, an alignment of as many rows placed before Rows in the same file: the
+	// command computes one matrix per alignment with the same model object
+	Before []string `json:"before"`
 }
 
 func genCLI(t *rapid.T) cliCase {
@@ -317,6 +322,9 @@ func genCLI(t *rapid.T) cliCase {
 	c.Phylip = rapid.IntRange(0, 3).Draw(t, "phylip") == 0
 	c.ToFile = rapid.IntRange(0, 3).Draw(t, "tofile") == 0
 	c.Average = rapid.IntRange(0, 5).Draw(t, "average") == 0
+	if c.Phylip && rapid.Bool().Draw(t, "two-alignments") {
+		c.Before, _ = refdist.GenRows(t, len(c.Rows), len(c.Rows), 30, c.Tier)
+	}
 	if rapid.IntRange(0, 7).Draw(t, "bad") == 0 {
 		c.Bad = rapid.SampledFrom([]string{"gap-mut-3", "gap-mut-negative", "unknown-model", "range-min>max", "range-malformed", "single-range", "protein-alignment", "missing-file"}).Draw(t, "badkind")
 		if (c.Bad == "gap-mut-3" || c.Bad == "gap-mut-negative") && refdist.Corrected(c.Opt.Model) {
@@ -348,7 +356,11 @@ func TestCLI(t *testing.T) {
 		}
 		var in string
 		if c.Phylip {
-			in = cli.TempFile(dir, ".phy", phylip(rows))
+			text := phylip(rows)
+			if c.Before != nil {
+				text = phylip(distrun.Ali(c.Before).Rows) + text
+			}
+			in = cli.TempFile(dir, ".phy", text)
 		} else {
 			in = cli.TempFile(dir, ".fa", cli.Fasta(rows))
 		}
@@ -409,30 +421,48 @@ func TestCLI(t *testing.T) {
 			}
 			text = string(b)
 		}
-		readings := refdist.Readings(c.Rows, c.Opt, keepAllReadings(&o, c.Rows, c.Opt))
+		// one block of output per alignment of the input, in order
+		inputs := [][]string{c.Rows}
+		if c.Before != nil {
+			inputs = [][]string{c.Before, c.Rows}
+			o.Class("two-alignments-in-one-file")
+		}
 		if c.Average {
-			return checkAverage(c, text, readings, o)
+			lines := strings.Split(strings.TrimRight(text, "\n"), "\n")
+			if len(lines) != len(inputs) {
+				return o, fmt.Errorf("goalign %v: -a prints %d lines for %d alignments: %q", args, len(lines), len(inputs), text)
+			}
+			for k, rows := range inputs {
+				if o, err = checkAverage(rows, c.Opt, lines[k], o); err != nil {
+					return o, fmt.Errorf("goalign %v, alignment %d: %v", args, k+1, err)
+				}
+			}
+			return o, nil
 		}
-		names, got, perr := distrun.ParseMatrix(text)
+		names, mats, perr := distrun.ParseMatrices(text)
 		if perr != nil {
-			return o, fmt.Errorf("goalign %v: unreadable matrix: %v\n%s", args, perr, trunc(text, 600))
+			return o, fmt.Errorf("goalign %v: unreadable output: %v\n%s", args, perr, trunc(text, 600))
 		}
-		for i, n := range names {
-			if n != ali.Rows[i].Name {
-				return o, fmt.Errorf("goalign %v: row %d is named %q, want %q", args, i, n, ali.Rows[i].Name)
+		if len(mats) != len(inputs) {
+			return o, fmt.Errorf("goalign %v: %d matrices printed for %d alignments", args, len(mats), len(inputs))
+		}
+		for k, rows := range inputs {
+			for i, n := range names[k] {
+				if n != ali.Rows[i].Name {
+					return o, fmt.Errorf("goalign %v: row %d is named %q, want %q", args, i, n, ali.Rows[i].Name)
+				}
+			}
+			v, ref, err := refdist.JudgeAny(mats[k], rows, c.Opt, refdist.Readings(rows, c.Opt), judgeOpt(refdist.CLITol))
+			if err != nil {
+				return o, fmt.Errorf("goalign %v, alignment %d of %d\n%v", args, k+1, len(inputs), err)
+			}
+			o.Ill += v.Ill
+			o.Ambiguous += v.Ambiguous
+			o.NonTrivial = o.NonTrivial || v.NonTrivial > 0
+			if k == len(inputs)-1 {
+				classify(&o, c.Opt, c.Tier, ref)
 			}
 		}
-		v, ref, err := refdist.JudgeAny(got, c.Rows, c.Opt, readings, judgeOpt(refdist.CLITol))
-		if err != nil {
-			return o, fmt.Errorf("goalign %v\n%v", args, err)
-		}
-		o.Ill += v.Ill
-		o.Ambiguous += v.Ambiguous
-		for k := 0; k < v.BelowP; k++ {
-			o.Exclude(keyPiGapCells)
-		}
-		o.NonTrivial = v.NonTrivial > 0
-		classify(&o, c.Opt, c.Tier, ref)
 		o.Class("threads=%d", c.Threads)
 		if c.Phylip {
 			o.Class("phylip-input")
@@ -445,7 +475,7 @@ func TestCLI(t *testing.T) {
 }
 
 // checkAverage: -a prints the mean of the entries above the diagonal that are numbers
-func checkAverage(c cliCase, text string, readings []refdist.Reading, o pbt.Outcome) (pbt.Outcome, error) {
+func checkAverage(rows []string, opt refdist.Options, text string, o pbt.Outcome) (pbt.Outcome, error) {
 	o.Class("average")
 	line := strings.TrimSpace(text)
 	if strings.ContainsAny(line, "\n\t ") {
@@ -463,8 +493,8 @@ func checkAverage(c cliCase, text string, readings []refdist.Reading, o pbt.Outc
 		got = g
 	}
 	var msgs []string
-	for _, rd := range readings {
-		ref := refdist.Reference(c.Rows, c.Opt, rd)
+	for _, rd := range refdist.Readings(rows, opt) {
+		ref := refdist.Reference(rows, opt, rd)
 		if ref.NIll+ref.NHuge+ref.NUndefined > 0 {
 			// the mean hides the entries that are not numbers and contains substitutes: not judged
 			o.Class("average-with-undefined-pairs")
@@ -480,7 +510,7 @@ func checkAverage(c cliCase, text string, readings []refdist.Reading, o pbt.Outc
 		}
 		want := sum / float64(n)
 		if !math.IsNaN(got) && refdist.CLITol.Close(got, want) {
-			o.NonTrivial = ref.NDefined > 0 && want > 0
+			o.NonTrivial = o.NonTrivial || ref.NDefined > 0 && want > 0
 			return o, nil
 		}
 		msgs = append(msgs, fmt.Sprintf("under reading %v the mean is %.15g", rd, want))
